@@ -13,7 +13,8 @@ RULE = ("generated version histories per unit (1-12 versions; repeated versions,
         "VersionedDataHandler.compute_versioned_margin_estimate; the returned frame (error type, one row per whole percent, imputed margin and "
         "correction) is compared inside Coq with the exact-rational model (1e-9 relative; a percent coinciding with a re-scaled observation "
         "percent is not compared and is counted); the statement (range, convexity, before-first, domain, correction, all-missing on irregular "
-        "histories) is re-evaluated on the output. distinct = (number of versions, kind, dtype, error type); non-trivial = >= 3 versions")
+        "histories) is re-evaluated on the output; frames of 2-5 units whose versions are interleaved in time (direct call and through get_versioned_results): every unit "
+        "gets the rows it gets alone. distinct = (number of versions, kind, dtype, error type); non-trivial = >= 3 versions")
 
 KINDS = ["regular", "regular", "regular", "rescaled", "repeat", "zero_first", "downward", "bad_batch", "zero_final", "single", "reattributed", "revert", "pev_revert"]
 
@@ -214,6 +215,83 @@ def worker(job):
     return res
 
 
+def multi_job(job):
+    """several units whose versions arrive interleaved in time, in ONE frame: every unit's rows must be what the unit gets when its history is
+    processed alone (units are imputed independently of one another)"""
+    from harness import run_impl
+
+    seed, path = job
+    run_impl._imp()
+    import numpy as np
+    import pandas as pd
+
+    from elexmodel.handlers.data.VersionedData import VersionedDataHandler
+
+    rng = random.Random(seed)
+    k = rng.randint(2, 5)
+    hists = {f"u{j}": gen_history(rng, rng.choice(KINDS)) for j in range(k)}
+    # one clock for all units: a random merge that keeps each unit's own order
+    cursor = {u: 0 for u in hists}
+    rows = []
+    t = 0
+    while any(cursor[u] < len(h) for u, h in hists.items()):
+        u = rng.choice([u for u, h in hists.items() if cursor[u] < len(h)])
+        r = dict(hists[u][cursor[u]])
+        r.update({"postal_code": "AA", "geographic_unit_fips": u, "t": t})
+        rows.append(r)
+        cursor[u] += 1
+        t += 1
+
+    def derived(df):
+        df = df.copy()
+        df["results_weights"] = df["results_dem"] + df["results_gop"]
+        df["results_margin"] = df["results_dem"] - df["results_gop"]
+        with np.errstate(all="ignore"):
+            df["results_normalized_margin"] = np.nan_to_num((df["results_margin"] / df["results_weights"]).astype(float), nan=0, posinf=0, neginf=0)
+        return df
+
+    def run_frame(frame):
+        with np.errstate(all="ignore"):
+            if path == "handler":
+                raw = frame.drop(columns=["t"]).copy()
+                raw["last_modified"] = pd.Timestamp("2030-11-05 19:00", tz="America/New_York") + pd.to_timedelta(frame["t"].values * 10, unit="min")
+                h = VersionedDataHandler("2099-11-03_USA_G", "S", "county", estimands=["margin"])
+
+                class Store:
+                    def get(self, path_, sample):
+                        return raw.copy()
+
+                h.s3_client = Store()
+                h.get_versioned_results()
+                res = h.compute_versioned_margin_estimate()
+            else:
+                h = object.__new__(VersionedDataHandler)
+                res = h.compute_versioned_margin_estimate(data=derived(frame.drop(columns=["t"])))
+        out = {}
+        for rec in res.to_dict("records"):
+            out.setdefault(rec["geographic_unit_fips"], []).append(tuple("nan" if (isinstance(rec[c], float) and rec[c] != rec[c]) else (float(rec[c]).hex() if isinstance(rec[c], (int, float)) else str(rec[c]))
+                                                                         for c in ("percent_expected_vote", "nearest_observed_vote", "est_margin", "est_correction", "error_type")))
+        return out
+
+    allf = pd.DataFrame(rows)
+    res = {"job": list(job), "units": k, "rows": len(rows), "ok": True, "exc": None, "s": [], "histories": hists, "order": [r["geographic_unit_fips"] for r in rows]}
+    try:
+        together = run_frame(allf)
+        for u in hists:
+            alone = run_frame(allf[allf["geographic_unit_fips"] == u].reset_index(drop=True))
+            if together.get(u) != alone.get(u):
+                a, b = alone.get(u) or [], together.get(u) or []
+                diff = next((i for i, (x, y) in enumerate(zip(a, b)) if x != y), min(len(a), len(b)))
+                res["s"].append({"what": f"unit {u} ({len(hists[u])} versions) processed together with {k - 1} other units whose versions are interleaved with its own gets "
+                                         f"{len(b)} rows, first difference at row {diff}: alone {a[diff] if diff < len(a) else None}, together {b[diff] if diff < len(b) else None}",
+                                 "kind": "units-not-independent"})
+                break
+    except Exception as e:  # noqa: BLE001
+        res["ok"] = False
+        res["exc"] = (type(e).__name__, str(e)[:200])
+    return res
+
+
 def run(chk):
     ok, rep = chk.proofs()
     chk.assumptions += ["the model works on the exact rational value of the (binary64) inputs; estimates compared at 1e-9 relative",
@@ -247,12 +325,26 @@ def run(chk):
         if okb.strip() != "true" and not o["s"]:
             chk.violation(f"returned frame differs from the model's table for a {kind}/{dtype} history although the C17 predicate holds on it",
                           dict(replay, correspondence="coq/Model/Versioned.v check_versioned"), {"kind": "model-diff"}, no_input=True)
+    # several units in one frame, versions interleaved in time
+    mjobs = [(rng.randint(0, 2**31), ["data", "handler"][i % 2]) for i in range(16 if chk.tier == "quick" else 300)]
+    for o in core.pmap(multi_job, mjobs, chunksize=2):
+        chk.count({"multi_units": o["units"], "path": o["job"][1]}, nontrivial=o["units"] >= 2 and o["ok"],
+                  sample={"stream": "several units, interleaved versions", "units": o["units"], "rows": o["rows"], "order": o["order"][:12]} if o["units"] == 3 else None)
+        rp = {"kind": "c17-multi", "job": o["job"], "histories": o["histories"], "order": o["order"]}
+        if not o["ok"]:
+            chk.violation(f"compute_versioned_margin_estimate failed on a frame of {o['units']} interleaved units: {o['exc']}", rp, {"kind": "raises", "hkind": "multi"})
+        for f in o["s"]:
+            chk.violation(f["what"], rp, {"kind": f["kind"]})
     if not ok and not [v for v in chk.violations if not v["no_input"]]:
         chk.violation("proof obligations of C17 no longer check", {"theorem_file": "coq/Properties/C17.v", "log": rep.get("log_tail", "")[-1500:]}, {"kind": "proof-broken"}, no_input=True)
     return chk.finish(RULE, extra={"ambiguous_percent_rows_not_compared": amb})
 
 
 def replay(chk, payload):
+    if payload["replay"].get("kind") == "c17-multi":
+        o = multi_job(tuple(payload["replay"]["job"]))
+        print(json.dumps({k_: o[k_] for k_ in ("ok", "exc", "s", "order")}, indent=1, default=str)[:3000])
+        return 1 if (o["s"] or not o["ok"]) else 0
     o = worker(tuple(payload["replay"]["job"]))
     print(json.dumps({k: o.get(k) for k in ("ok", "exc", "s", "err", "hist")}, indent=1, default=str))
     return 1 if (not o["ok"] or o.get("s")) else 0
